@@ -5,7 +5,10 @@ use num_traits::{float::FloatCore, AsPrimitive};
 
 use crate::{generic_static_asserts, wrapping_pow2, BitArray};
 
-use super::super::{DecoderModel, EncoderModel, EntropyModel};
+use super::{
+    super::{DecoderModel, EncoderModel, EntropyModel},
+    all_finite_and_nonnegative,
+};
 
 /// Type alias for a typical [`LazyContiguousCategoricalEntropyModel`].
 ///
@@ -146,6 +149,10 @@ where
         let probs = probabilities.as_ref();
 
         if probs.len() < 2 || probs.len() >= wrapping_pow2::<usize>(PRECISION).wrapping_sub(1) {
+            return Err(());
+        }
+
+        if !all_finite_and_nonnegative(probs) {
             return Err(());
         }
 
